@@ -339,6 +339,42 @@ def r17d(ctx):
                           f"and the search converges to a more expensive one (e.g. [2,2] held, [0,10] -> [6,6] resolved last: answer 6)")
 
 
+def r17f(ctx):
+    m = ctx.model
+    ctx.rule("R17f", "heap keys follow their items: IterativeTighteningSearch keeps each candidate in a heap under the interval it had "
+                     "when it was pushed; bounds(), best_match and goal_test() read those keys.  After asking a candidate to tighten, "
+                     "the key must be refreshed whatever the answer - a candidate that answers False because it was already tightened "
+                     "elsewhere (the same object held twice, or refined by its owner) otherwise keeps a stale key, and the search ends "
+                     "with `not tightened` on an interval that is not single-valued")
+    q = m.need_class("IterativeTighteningSearch")
+    f = m.method(q, "tighten_bounds")
+    n = 0
+    for l in walk_no_nested(f.node):
+        if not (isinstance(l, ast.For) and "min_node" in ast.unparse(l.iter)):
+            continue
+        for c in ast.walk(l):
+            if isinstance(c, ast.Call) and self_attr(c.func) == "_update_bounds":
+                n += 1
+                facts = [(ast.unparse(t), pol) for t, pol in flatten_conditions(dominating_conditions(c, stop=l))]
+                def pure_progress_flag(t):
+                    defs = [a for a in ast.walk(l) if isinstance(a, ast.Assign) and isinstance(a.targets[0], ast.Name) and a.targets[0].id == t]
+                    from_call = [a for a in defs if "tighten_bounds()" in ast.unparse(a.value)]
+                    # another definition that sets it under a comparison of the item's bounds with the stored key refreshes stale keys
+                    refresh = [a for a in defs if a not in from_call and any(".key" in ast.unparse(t2) and "bounds()" in ast.unparse(t2)
+                                                                             for t2, _p in flatten_conditions(dominating_conditions(a, stop=l)))]
+                    return bool(from_call) and not refresh
+                flag = [t for t, pol in facts if pol and pure_progress_flag(t)]
+                if flag:
+                    ctx.violation("R17f", f.file, "IterativeTighteningSearch.tighten_bounds", c, "re-key after tightening",
+                                  f"`{norm(c, 40)}` runs only under `if {flag[0]}:` - the candidate's own progress flag: a candidate whose "
+                                  f"tighten_bounds() answers False is never re-keyed, so for the collection [A, A] (one object, twice) the "
+                                  f"second entry keeps the interval it was pushed with and the search ends on [0, 7] instead of [7, 7]")
+                else:
+                    ctx.proved("R17f", f.file, "IterativeTighteningSearch.tighten_bounds", c, "re-key after tightening",
+                               "the key is refreshed after every tighten call")
+    ctx.floor("R17f", n, 1, "re-keying sites in the candidate loop")
+
+
 def r17e(ctx):
     m = ctx.model
     ctx.rule("R17e", "the search's own progress flag and pruning are exact at the edges: (1) the goal branch of tighten_bounds "
@@ -415,6 +451,7 @@ def run(ctx):
     r17c(ctx)
     r17d(ctx)
     r17e(ctx)
+    r17f(ctx)
     from .c05 import r05c
     r05c(ctx)     # candidates taken from the one-shot iterator are retained on a heap on every path
     ctx.assume("that the search ends with a minimum, that ordering is by final cost and that all of this terminates for "
